@@ -214,7 +214,7 @@ func hostClassOf(entry string) string {
 	}
 	cls := "name"
 	switch {
-	case func() bool { _, ok := ifaceIPv4(name); return ok }():
+	case ifaceV4Map[name] != "": // (as at start-up: a label only)
 		cls = "interface-name"
 	case isIface(name):
 		cls = "interface-without-ipv4"
